@@ -54,3 +54,11 @@ Example C05_examples :
   jparse_str false (s_ "t:2020-01-02T03:04:05+01:00") = Ok (VDateTimeRaw (s_ "2020-01-02T03:04:05+01:00") None) /\
   jparse_str false (s_ "t:2020-01-02T03:04:05Z UTC") = Ok (VDateTimeRaw (s_ "2020-01-02T03:04:05Z") (Some (s_ "UTC"))).
 Proof. vm_compute. repeat split. Qed.
+
+(* a grid object whose `rows` is null, or which has no `rows` key at all, denotes the grid with no rows *)
+Theorem C05_rows_null : forall f m,
+  jparse_grid (S f) ((s_ "rows", JNull) :: m) = jparse_grid (S f) ((s_ "rows", JArr nil) :: m).
+Proof. exact rows_null_is_empty. Qed.
+Theorem C05_rows_missing : forall f m, assoc (s_ "rows") m = None ->
+  jparse_grid (S f) (m ++ cons (s_ "rows", JArr nil) nil) = jparse_grid (S f) m.
+Proof. exact rows_missing_is_empty. Qed.
